@@ -1,3 +1,4 @@
+import engines
 """Table of properties: which runner, which build flavour, how many shards, claimed level, assumptions."""
 COMMON_ASSUME = [
     "receive buffer is exactly MTU bytes, MTU in [576, 9216] (what the daemons allocate)",
@@ -8,6 +9,9 @@ COMMON_ASSUME = [
 PROPS = {
     "C01": dict(sources=["c01.cpp"], flavours=["asan"], shards={"quick": 8, "thorough": 16}, level="exploration",
                 technique="structure-aware generated frame sequences (rapidcheck quick tier, libFuzzer coverage-guided thorough tier) through all three receive entry points on MTU-sized heap buffers under AddressSanitizer+UBSan, plus allocation-ledger oracle",
+                assumptions=COMMON_ASSUME, post=engines.c01_fuzz_post),
+    "C02": dict(sources=["c02.cpp"], flavours=["asan"], shards={"quick": 8, "thorough": 16}, level="exploration",
+                technique="rapidcheck-generated frame histories; independent decoder (well-formedness), per-request transmit budget, and 0xA5/0x5A fresh-memory differential as oracles",
                 assumptions=COMMON_ASSUME),
     "C03": dict(sources=["c03.cpp"], flavours=["asan"], shards={"quick": 4, "thorough": 16}, level="exploration",
                 technique="rapidcheck-generated frame histories; independent byte-level decoder as oracle; C05 reference model decides which Discovers must be accepted",
